@@ -14,12 +14,10 @@ Example script_name_regex_anchor :
   /\ Gen.C04.script_name_regex_flags = 0.
 Proof. split; reflexivity. Qed.
 Example placeholder_regex_anchor :
-  Gen.C04.placeholder_regex_flags = 0 /\
-  ((Gen.C04.placeholder_any_order = false /\ Gen.C04.placeholder_regex =
-      s2n "<link name=""CSS_PLACEHOLDER""(?: data-djc-css-\w{6}="""")?(?: data-djc-id-\w{6}="""")*/?>|<script name=""JS_PLACEHOLDER""(?: data-djc-css-\w{6}="""")?(?: data-djc-id-\w{6}="""")*></script>"%string)
-   \/ (Gen.C04.placeholder_any_order = true /\ Gen.C04.placeholder_regex =
-      s2n "<link name=""CSS_PLACEHOLDER""(?: data-djc-(?:id|css)-\w{6}="""")*/?>|<script name=""JS_PLACEHOLDER""(?: data-djc-(?:id|css)-\w{6}="""")*></script>"%string)).
-Proof. split; [reflexivity|]. first [left; split; reflexivity | right; split; reflexivity]. Qed.
+  Gen.C04.placeholder_regex =
+    s2n "<link name=""CSS_PLACEHOLDER""(?: data-djc-(?:id|css)-\w{6}="""")*/?>|<script name=""JS_PLACEHOLDER""(?: data-djc-(?:id|css)-\w{6}="""")*></script>"%string
+  /\ Gen.C04.placeholder_regex_flags = 0.
+Proof. split; reflexivity. Qed.
 Example deps_comment_anchor : forall d, emit_raw d = s2n "<!-- _RENDERED "%string ++ d ++ s2n " -->"%string
   /\ Gen.C04.deps_comment = s2n "<!-- _RENDERED {data} -->"%string.
 Proof. intro d. split; reflexivity. Qed.
@@ -1102,7 +1100,6 @@ Proof.
 Qed.
 
 Notation attrs_ok attrs := (forallb (fun a : bool * str => is_word6 (snd a)) attrs = true).
-Notation all_ids attrs := (forallb (fun a : bool * str => negb (fst a)) attrs = true).
 
 Lemma word6_length id : is_word6 id = true -> length id = 6%nat.
 Proof. destruct id as [|a [|b [|c [|d [|e [|f [|g ?]]]]]]]; try discriminate. reflexivity. Qed.
@@ -1134,18 +1131,6 @@ Proof.
       rewrite IH; [reflexivity|cbn in Hf; lia|exact H2|exact Hr|exact Hr2].
 Qed.
 
-(* pattern "(?: data-djc-id-\w{6}="")*" *)
-Lemma strip_ids_ok attrs : forall fuel r, (length attrs <= fuel)%nat -> attrs_ok attrs -> all_ids attrs ->
-  strip_attr attr_id r = None -> strip_ids fuel (flat_map attr_bytes attrs ++ r) = (r, length attrs).
-Proof.
-  induction attrs as [|[b v] attrs' IH]; intros fuel r Hf Hw Ha Hr; cbn [flat_map app length].
-  - destruct fuel; cbn [strip_ids]; [reflexivity|]. rewrite Hr. reflexivity.
-  - destruct fuel as [|f]; [cbn in Hf; lia|]. cbn [strip_ids]. cbn [forallb fst snd] in Hw, Ha.
-    apply andb_true_iff in Hw as [H1 H2]. apply andb_true_iff in Ha as [A1 A2]. destruct b; [discriminate|].
-    cbn [attr_bytes fst snd]. unfold id_attr. rewrite <- !app_assoc. rewrite (strip_attr_ok attr_id v _ H1).
-    rewrite IH; [reflexivity| cbn in Hf; lia | exact H2 | exact A2 | exact Hr].
-Qed.
-
 Lemma attrs_length_le (attrs : list (bool * str)) r : (length attrs <= length (flat_map attr_bytes attrs ++ r))%nat.
 Proof.
   rewrite app_length. induction attrs as [|[b v] attrs' IH]; cbn [flat_map length]; [lia|].
@@ -1153,48 +1138,27 @@ Proof.
   destruct b; cbn [attr_bytes fst snd]; unfold css_attr, id_attr; rewrite !app_length; cbn; lia.
 Qed.
 
-Lemma ids_bytes_length attrs : attrs_ok attrs -> all_ids attrs ->
-  length (flat_map attr_bytes attrs) = (length attrs * attr_len)%nat.
-Proof.
-  induction attrs as [|[b v] r IH]; intros Hw Ha; cbn [flat_map length]; [reflexivity|].
-  cbn [forallb fst snd] in Hw, Ha. apply andb_true_iff in Hw as [H1 H2]. apply andb_true_iff in Ha as [A1 A2].
-  destruct b; [discriminate|]. rewrite app_length, (IH H2 A2), (attr_bytes_length (false, v) H1). cbn [fst]. lia.
-Qed.
-
-(* the attribute part of an emitted placeholder is consumed entirely (both shapes of the pattern) *)
+(* the attribute part of an emitted placeholder is consumed entirely *)
 Lemma ph_attrs_emit attrs r :
-  attrs_ok attrs -> any_order || css_first attrs = true ->
-  strip_attr attr_id r = None -> strip_attr attr_css r = None ->
+  attrs_ok attrs -> strip_attr attr_id r = None -> strip_attr attr_css r = None ->
   ph_attrs (flat_map attr_bytes attrs ++ r) = (r, length (flat_map attr_bytes attrs)).
 Proof.
-  intros Hw Ho Hr Hr2. unfold ph_attrs, any_order in *. destruct Gen.C04.placeholder_any_order.
-  - apply strip_any_ok; [apply attrs_length_le|exact Hw|exact Hr|exact Hr2].
-  - cbn [orb] in Ho. destruct attrs as [|[[|] c] rest].
-    + cbn [flat_map app length]. rewrite Hr2. destruct (length r); cbn [strip_ids]; [reflexivity|rewrite Hr; reflexivity].
-    + cbn [css_first] in Ho. cbn [forallb snd] in Hw. apply andb_true_iff in Hw as [Hc Hi].
-      cbn [flat_map attr_bytes fst snd]. unfold css_attr. rewrite <- !app_assoc.
-      rewrite (strip_attr_ok attr_css c _ Hc).
-      rewrite (strip_ids_ok rest _ r (attrs_length_le rest r) Hi Ho Hr).
-      rewrite !app_length, (ids_bytes_length rest Hi Ho), (word6_length c Hc). reflexivity.
-    + cbn [css_first] in Ho.
-      assert (N : strip_attr attr_css (flat_map attr_bytes ((false, c) :: rest) ++ r) = None) by reflexivity.
-      rewrite N. rewrite (strip_ids_ok _ _ r (attrs_length_le _ r) Hw Ho Hr).
-      rewrite (ids_bytes_length _ Hw Ho). reflexivity.
+  intros Hw Hr Hr2. unfold ph_attrs. apply strip_any_ok; [apply attrs_length_le|exact Hw|exact Hr|exact Hr2].
 Qed.
 
 Lemma match_placeholder_emit k attrs slash post :
-  attrs_ok attrs -> any_order || css_first attrs = true ->
+  attrs_ok attrs ->
   match_placeholder (emit_placeholder k attrs slash ++ post) = Some (k, length (emit_placeholder k attrs slash)).
 Proof.
-  intros Hw Ho. unfold match_placeholder, emit_placeholder. destruct k.
+  intros Hw. unfold match_placeholder, emit_placeholder. destruct k.
   - assert (N : forall x, strip_prefix css_ph_open (js_ph_open ++ x) = None) by reflexivity.
     rewrite <- !app_assoc. rewrite N, strip_prefix_app.
-    rewrite (ph_attrs_emit attrs (js_ph_close ++ post) Hw Ho) by reflexivity.
+    rewrite (ph_attrs_emit attrs (js_ph_close ++ post) Hw) by reflexivity.
     rewrite strip_prefix_app. rewrite !app_length. repeat f_equal; try lia.
   - rewrite <- !app_assoc. rewrite strip_prefix_app. destruct slash; cbn [app].
-    + rewrite (ph_attrs_emit attrs (47 :: 62 :: post) Hw Ho) by reflexivity.
+    + rewrite (ph_attrs_emit attrs (47 :: 62 :: post) Hw) by reflexivity.
       rewrite !app_length. cbn [length]. repeat f_equal; try lia.
-    + rewrite (ph_attrs_emit attrs (62 :: post) Hw Ho) by reflexivity.
+    + rewrite (ph_attrs_emit attrs (62 :: post) Hw) by reflexivity.
       rewrite !app_length. cbn [length]. repeat f_equal; try lia.
 Qed.
 
